@@ -67,8 +67,9 @@ def register_forward_ref(
         ref.__forward_evaluated__ = False
         try:
             annotation = evaluate_forward_ref(annotation, global_vars, None)
-        except NameError:
+        except (NameError, AttributeError):
             # ignore for now
+            # ('module.Name' where the module does not have the name yet is as pending as a bare name)
             pass
         else:
             evaluated = True
